@@ -1,11 +1,13 @@
 import Driver.Engine
 import Driver.Cg
+import Driver.Enc
 
 open Driver
 
 def dispatch (comp : String) (toks : List String) : String :=
   if comp == "engine" then handleEngine toks
   else if comp == "cg" then handleCg toks
+  else if comp == "enc" then handleEnc toks
   else "bad-op"
 
 partial def loop (h : IO.FS.Stream) (out : IO.FS.Stream) : IO Unit := do
